@@ -17,7 +17,7 @@ RULE = (
     "Non-trivial = >= 2 blocks, or a block within +-2 of the limit, or an oversize entry; distinct by case hash."
 )
 ASSUMPTIONS = ["nothing is demanded about WHICH error is raised when a block cannot be framed in one length byte"]
-REQUIRED_CLASSES = ["edited-created-component=tag-added", "edited-created-component=tag-removed", "blocks>=2", "block.size=117", "block.size=116", "entry.would-make-118", "oversize.first", "oversize.middle", "oversize.last", "delkey", "delkey.with-bytes-content", "content-type=bytearray", "content-type=memoryview", "delval", "extra-blocks", "extra-as=generator", "extra-as=iterator",
+REQUIRED_CLASSES = ["delete-mix.open-block=114.then-delkey-after-delval", "delete-mix.open-block=115.then-delkey-after-delval", "delete-mix.open-block=114.then-delval-after-delkey", "edited-created-component=tag-added", "edited-created-component=tag-removed", "blocks>=2", "block.size=117", "block.size=116", "entry.would-make-118", "oversize.first", "oversize.middle", "oversize.last", "delkey", "delkey.with-bytes-content", "content-type=bytearray", "content-type=memoryview", "delval", "extra-blocks", "extra-as=generator", "extra-as=iterator",
                     "unframeable"]
 
 LIMIT = 117
@@ -98,6 +98,8 @@ def check(case, rec):
             nt = True
     if case.get("target") == 118:
         rec.cls("entry.would-make-118")
+    if case.get("delete_mix") and case["delete_mix"][1] == 0:
+        rec.cls("delete-mix.open-block=%d.then-%s" % (case["delete_mix"][0], "delval-after-delkey" if case["delete_mix"][2] else "delkey-after-delval"))
     if nt:
         rec.nt()
     for i, b in enumerate(blocks):
@@ -227,6 +229,55 @@ def strat_target(draw, tier="quick"):
 
 
 @st.composite
+def strat_delete_mix(draw, tier="quick"):
+    """CONSTRUCTED: deletions only (delete-key entries are 3 bytes and have no closing byte, delete-value groups are 3 + 2m bytes + a closing FF),
+    arranged so that the open block is exactly T in 110..118 bytes long when the next entry - of the OTHER kind - arrives: a delete-key entries,
+    closed delete-value groups, ONE single delete-value entry (still open), then a delete-key entry (or the mirror image: ... delete-key, then a
+    delete-value group), then a few more entries."""
+    T = draw(st.integers(110, 118))
+    a = draw(st.integers(0, 5))
+    mirror = draw(st.booleans())
+    tail_open = 3 if mirror else 5   # the last entry before the switch: a delete-key (3) or a single delete-value (3+2, FF pending)
+    R = T - tail_open - 3 * a
+    if R % 2:
+        a += 1
+        R -= 3
+    groups = []
+    while R >= 6:
+        m = draw(st.integers(1, max(1, min(25, (R - 4) // 2))))
+        if R - (4 + 2 * m) not in (0,) and R - (4 + 2 * m) < 6:
+            m = (R - 4) // 2
+        groups.append(m)
+        R -= 4 + 2 * m
+    key = 1
+    entries = []
+    for _ in range(a):
+        entries.append((key, None, None))
+        key += 1
+    for m in groups:
+        for v in range(m):
+            entries.append((key, v, None))
+        key += 1
+    if mirror:
+        entries.append((key, None, None))
+        key += 1
+        for v in range(draw(st.integers(1, 3))):
+            entries.append((key, v, None))
+    else:
+        entries.append((key, draw(st.integers(0, 0xFE)), None))
+        key += 1
+        entries.append((key, None, None))
+    key += 1
+    for _ in range(draw(st.integers(0, 3))):
+        if draw(st.booleans()):
+            entries.append((key, None, None))
+        else:
+            entries.append((key, draw(st.integers(0, 0xFE)), draw(st.one_of(st.none(), st.binary(max_size=12)))))
+        key += 1
+    return dict(entries=entries, extra=[], delete_mix=(T, R, mirror))
+
+
+@st.composite
 def strat_oversize(draw, tier="quick"):
     pos = draw(st.sampled_from(["first", "middle", "last"]))
     big = draw(st.sampled_from([112, 113, 120, 200, 249, 250, 251, 254]))
@@ -247,5 +298,6 @@ def parts(tier):
     return [
         Part("general", check=check, strategy=strat_general, quick=(16, 300), thorough=(16, 2500)),
         Part("size_target", check=check, strategy=lambda t: strat_target(t), quick=(16, 500), thorough=(16, 10000)),
+        Part("delete_mix", check=check, strategy=lambda t: strat_delete_mix(t), quick=(4, 300), thorough=(8, 3000)),
         Part("oversize", check=check, strategy=lambda t: strat_oversize(t), quick=(8, 200), thorough=(16, 3000)),
     ]
